@@ -368,10 +368,7 @@ def digests_here(pid, base_seed, idxs, tier):
 
 def say(*a):
     # (scenario texts may hold lone surrogates - undecodable file names: never let reporting fail on them)
-    try:
-        print(*a, file=sys.__stdout__, flush=True)
-    except UnicodeEncodeError:
-        print(*[str(x).encode("utf-8", "backslashreplace").decode("utf-8") for x in a], file=sys.__stdout__, flush=True)
+    print(*[str(x).encode("utf-8", "backslashreplace").decode("utf-8") for x in a], file=sys.__stdout__, flush=True)
 
 
 def run_check(pid, tier="quick", base_seed=0, n=None, workers=None, wall_cap=None, write_evidence=True):
